@@ -61,6 +61,13 @@ func c16Package(r *rand.Rand, id string, size int) (*Prog, []c16Decl) {
 		mainFn := p.Funcs[len(p.Funcs)-1]
 		mainFn.Body = append([]*S{pr(sS("link"), &E{K: "call", Fn: "link", Ty: TInt, NRes: 1})}, mainFn.Body...)
 	}
+	// struct types that share field names in different orders, rendered as a whole
+	if size != 0 {
+		g.prog = p
+		call := g.addShowDemo()
+		mainFn := p.Funcs[len(p.Funcs)-1]
+		mainFn.Body = append([]*S{call}, mainFn.Body...)
+	}
 	customPrint := false
 	if size != 0 && r.Intn(2) == 0 {
 		customPrint = true
